@@ -111,3 +111,9 @@ PROPS["C20"] = {
 
 HOOK_COMMITS = ["3043224"]
 NOT_YET = {}
+
+# group modules p_<group>.py register their properties: def register(PROPS): PROPS["Cxx"] = {...}
+import glob as _glob, importlib as _importlib, os as _os
+for _f in sorted(_glob.glob(_os.path.join(_os.path.dirname(_os.path.abspath(__file__)), "p_*.py"))):
+    _m = _importlib.import_module(_os.path.basename(_f)[:-3])
+    _m.register(PROPS)
